@@ -38,7 +38,7 @@ PLAN = {
  "C18_m1": [("C11", ["--only", "zz"])], "C18_m2": [("C11", ["--only", "zz"])], "C18_m3": [("C08", ["--only", "p256"])],
  "C18_m4": [("C09", ["--only", "jq255s"])],
  "C10_m1": [("C10", ["--tier", "thorough"])],
- "C08s_m1": [("C08", ["--only", "p256"])], "C08s_m2": [("C08", ["--only", "secp256k1"])], "C08s_m3": [("C08", ["--only", "p256"]), ("C19", ["--only", "p256"])],
+ "C08s_m1": [("C08", ["--only", "p256"])], "C08s_m2": [("C08", ["--only", "secp256k1"])], "C08s_m3": [("C08", ["--only", "key"])],
  "C08s_m4": [("C08", ["--only", "p256"])],
  "C09s_m1": [("C11", ["--only", "zz"])], "C09s_m2": [("C11", ["--only", "zz"])], "C09s_m3": [("C09", ["--only", "jq255s"])], "C09s_m4": [("C09", ["--only", "gls254"])],
  "C17_m1": [("C17", ["--only", "step"])],
